@@ -346,6 +346,16 @@ def gen_mix(seed, idbase=0, nops=220, name="mix"):
                 if k:
                     keys.append(k)
         maps.append(dict(name=nm, kt=kt, keys=keys, hs=[nh], base=nh))
+    # a second database object for ANOTHER directory in the same process, with a map of its own (same name as the first)
+    other = None
+    if rng.random() < 0.5:
+        nh += 1
+        s.op("open_db", db=2, dir="d2")
+        okt = maps[0]["kt"]
+        s.op("map", h=nh, db=2, name=maps[0]["name"], kt=okt, params={"buckets": ["BucketsSize", 4]})
+        other = dict(name=maps[0]["name"], kt=okt, keys=maps[0]["keys"][:6], hs=[nh], dir="d2")
+        s.op("flush", h=nh)                       # flush as the very first call on a map
+        s.op("flush", h=nh)
     snap = 0
 
     def snapshot(which):
@@ -367,6 +377,43 @@ def gen_mix(seed, idbase=0, nops=220, name="mix"):
         h = rng.choice(m["hs"])
         k = rng.choice(m["keys"])
         r = rng.random()
+        if other and rng.random() < 0.08:
+            # the map of the other directory: alternating with the first one
+            oh = other["hs"][0]
+            ok = rng.choice(other["keys"])
+            s.op(rng.choice(["put", "put", "del", "get", "len"]), h=oh, **({} if False else {}))
+            o = s.ops[-1]
+            if o["op"] in ("put", "del", "get"):
+                o["k"] = ok
+            if o["op"] == "put":
+                o["v"] = rng.choice(vids)
+            continue
+        if rng.random() < 0.04:
+            # the same call twice in a row; empty arguments; all handles of a map dropped and the map asked for again
+            w = rng.random()
+            if w < 0.2:
+                s.op("del", h=h, k=k)
+                s.op("del", h=h, k=k)
+            elif w < 0.4:
+                v = rng.choice(vids)
+                s.op("put", h=h, k=k, v=v)
+                s.op("put", h=h, k=k, v=v)
+            elif w < 0.55:
+                x = rng.choice(["flush", "sync_data", "sync_all"])
+                s.op(x, h=h)
+                s.op(x, h=h)
+            elif w < 0.7:
+                s.op(rng.choice(["bulk_get", "bulk_del", "bulk_put"]), h=h, ks=[], vs=[])
+                if s.ops[-1]["op"] != "bulk_put":
+                    del s.ops[-1]["vs"]
+            else:
+                for hh in m["hs"]:
+                    s.op("drop_h", h=hh)
+                nh += 1
+                s.op("map", h=nh, db=rng.choice([0, 1]), name=m["name"], kt=m["kt"])
+                m["hs"] = [nh]
+                s.op("dump", h=nh, ks=m["keys"])
+            continue
         if r < 0.26:
             via = {"via": "int"} if typed_int(m, [k]) else {}
             s.op(rng.choice(["put", "put", "put", "put_string"]) if not via else "put", h=h, k=k, v=rng.choice(vids), **via)
@@ -438,7 +485,25 @@ def gen_mix(seed, idbase=0, nops=220, name="mix"):
                     s.ops[-1]["v"] = rng.choice(vids)
             for mm in maps:
                 s.op("dump", h=rng.choice(mm["hs"]), ks=mm["keys"])
+            if rng.random() < 0.3:
+                # every database handle is dropped first; the map handles outlive them and keep working
+                s.op("drop_db", db=1)
+                s.op("drop_db", db=0)
+                for mm in maps:
+                    hh = rng.choice(mm["hs"])
+                    kk = rng.choice(mm["keys"])
+                    s.op("put", h=hh, k=kk, v=rng.choice(vids))
+                    s.op("get", h=hh, k=kk)
+                    s.op("len", h=hh)
             s.op(rng.choice(["drop_all", "new_process"]))
+            if other:
+                s.op("decode", dir="d2", name=other["name"], native=True)
+                nh += 1
+                s.op("open_db", db=2, dir="d2")
+                s.op("map", h=nh, db=2, name=other["name"], kt=other["kt"])
+                other["hs"] = [nh]
+                s.op("iter", h=nh, flavour=rng.choice(FLAVOURS))     # iteration right after open
+                s.op("dump", h=nh, ks=other["keys"])
             for mm in maps:
                 s.op("decode", dir="d", name=mm["name"], native=True)
             s.op("open_db", db=0, dir="d")
@@ -455,10 +520,14 @@ def gen_mix(seed, idbase=0, nops=220, name="mix"):
                 s.op("iter", h=nh, flavour=rng.choice(FLAVOURS))
     for mm in maps:
         s.op("dump", h=rng.choice(mm["hs"]), ks=mm["keys"])
+    if other:
+        s.op("dump", h=other["hs"][0], ks=other["keys"])
     s.op("new_process")
     for mm in maps:
         s.op("decode", dir="d", name=mm["name"], native=True)
         s.op("child_dump", dir="d", name=mm["name"], kt=mm["kt"], ks=mm["keys"])
+    if other:
+        s.op("child_dump", dir="d2", name=other["name"], kt=other["kt"], ks=other["keys"])
     return s
 
 
@@ -1449,6 +1518,17 @@ def gen_wrongtype(seed, idbase=0, pairs=None, sigvals=4, name="wrongtype"):
             # every second map is emptied again: its files hold no entry (item count 0), only free slots
             for k in keysof[kt]:
                 s.op("del", h=i + 1, k=k)
+    # (0) in the SAME session: a map that was just created (nothing flushed yet) or just written is asked for under
+    # the same name as another key type, through the same database object: refused, and the session goes on
+    for j, (a, b) in enumerate(rng.sample([p for p in pairs if SIG2[p[0]] != SIG2[p[1]]], 4)):
+        nm = "fresh%d" % j
+        s.op("map", h=20 + j, db=0, name=nm, kt=a, params={"buckets": ["BucketsSize", 8]})
+        if j % 2:
+            s.op("put", h=20 + j, k=keysof[a][0], v=vids[0])
+        s.op("map", h=40 + j, db=0, name=nm, kt=b, expect_refusal=True)
+        s.op("len", h=20 + j)
+        s.op("put", h=20 + j, k=keysof[a][1], v=vids[1])
+        s.op("dump", h=20 + j, ks=keysof[a])
     s.op("new_process")
     s.op("copy_dir", **{"from": "d", "to": "bak"})
     # (1) every ordered pair of key types
